@@ -221,7 +221,7 @@ PROPS = {
                        "keys idle >= 2*duration and leaves only younger ones. U8h (Verus) lifts the step contract to histories: counters stay in [0, limit], "
                        "at most `limit` admissions per window, window starts >= duration apart, and - by induction over arbitrary attempt histories of a key "
                        "(lemma_two_limit) - never more than 2*limit admissions within any interval of length `duration`.",
-        "not_covered": ["limit > 2^24: open known finding (f32 counter stalls)", "durations that are not whole seconds (start() builds them with Duration::from_secs) and > 366 days",
+        "not_covered": ["limit >= 2^32 - 1 (the harnesses draw the limit from [1, 2^24] and (2^24, 2^32 - 2]; the second range is where an f32 counter stalled before the fix 8b45174)", "durations that are not whole seconds (start() builds them with Duration::from_secs) and > 366 days",
                         "more than two simultaneously tracked keys (model map has two slots; the step is independent of the other slot's contents, which are arbitrary)",
                         "'tracked keys limited to those seen in the last four durations': only the per-call cleanup contract is proved; cleanup runs on admitted attempts only"],
         "assumptions": ["std HashMap::{entry, or_insert, retain, len} behave like the association-list model", "tokio Instant::now is monotone; both reads inside one call return the same instant"],
